@@ -51,7 +51,10 @@ fn run_op(v: &mut FileView, op: &S) -> S {
     r.unwrap_or_else(|_| sl![a(2)])
 }
 fn run_seq(f: &File, start: u64, end: u64, ops: &[&S]) -> S {
-    let mut v = FileView::new(reopen(f), start, end).unwrap();
+    let mut v = match FileView::new(reopen(f), start, end) {
+        Ok(v) => v,
+        Err(_) => return sl![sl![a(1), a(1)]],
+    };
     let mut out = vec![];
     for op in ops {
         let o = run_op(&mut v, op);
